@@ -4,7 +4,8 @@
    keywords order-insensitively, classes without their name. *)
 From Coq Require Import String Floats.SpecFloat.
 From Statham.Model Require Import Str Json Elem PyNum Validate Equality Sub.
-From Statham.Proofs Require Import JsonEqProof EqualityProof.
+From Statham.Model Require Import Spec6 SerJson Plain SerFrag EqFrag.
+From Statham.Proofs Require Import JsonEqProof EqualityProof JsonCong C01Vm C01Parse C03Meaning C17Cong.
 Local Open Scope string_scope.
 Local Open Scope list_scope.
 
@@ -53,3 +54,35 @@ Example C17_wf_example :
 Proof.
   split; repeat (constructor; simpl; auto); repeat split; simpl; auto; try constructor; simpl; auto.
 Qed.
+
+(* ---- interchangeability, where it holds ---- *)
+(* The literal equality is a congruence for what validators do with literals: comparing any value
+   with two equal literals gives the same answer (numbers by exact value - int vs float included -,
+   arrays item-wise, dicts order-insensitively). *)
+Theorem C17_literal_congruence : forall v, jwf v -> forall c1 c2, jwf c1 -> jwf c2 ->
+  js_eq c1 c2 = true -> js_eq v c1 = js_eq v c2.
+Proof. exact js_eq_cong. Qed.
+Print Assumptions C17_literal_congruence.
+
+(* Equal reference-free elements are interchangeable: their serialized documents have the same
+   Draft-6 meaning on every value, and (C03_meaning) the elements accept the same values whenever
+   neither call crashes - dict-valued keywords in any order, thresholds given as int or as the equal
+   float, literals that are equal but not identical.  `good` = reference-free and DSL-constructible
+   (C03's fragment), well-formed literals, and no float multipleOf parameter: exactly what finding
+   K17 (C17_interchangeable_refuted) shows to be necessary.  Object classes (where equality is used
+   by de-duplication and _from_definitions) are outside this theorem. *)
+Theorem C17_equal_documents_same_meaning : forall O w, w <> WAlways ->
+  forall a, good a -> forall b, good b -> elem_eq a b = true ->
+  forall v, jwf v -> v6 O w (ser_top true true [] a) v = v6 O w (ser_top true true [] b) v.
+Proof. intros O w Hw a Ga b Gb He v Hv. exact (ser_cong O w Hw a Ga b Gb He v Hv). Qed.
+Print Assumptions C17_equal_documents_same_meaning.
+
+Theorem C17_equal_same_verdict : forall O a b, good a -> good b -> elem_eq a b = true ->
+  forall v, jwf v -> ncrash (build O a (Some v)) -> ncrash (build O b (Some v)) ->
+  accepts O a v = accepts O b v.
+Proof. intros O a b Ga Gb He v Hv N1 N2. exact (equal_same_verdict O WNever ltac:(discriminate) a b Ga Gb He v Hv N1 N2). Qed.
+Print Assumptions C17_equal_same_verdict.
+
+Theorem C17_premise_checker : forall fuel e, goodb fuel e = true -> good e.
+Proof. exact goodb_sound. Qed.
+Print Assumptions C17_premise_checker.
